@@ -5,6 +5,9 @@
 #define CV_PRE_H
 #ifdef M_NAMEUNPACK
 #define CV_REAL_NAMEUNPACK rfc1035NameUnpack_real
+#include <stddef.h>
+/* the model's prototype (same signature as the real definition), so that callers in the real file convert arguments correctly */
+int rfc1035NameUnpack(const char *buf, size_t sz, unsigned int *off, unsigned short *rdlength, char *name, size_t ns, int rdepth);
 #else
 #define CV_REAL_NAMEUNPACK rfc1035NameUnpack
 #endif
